@@ -20,6 +20,16 @@ CHECKS = {
             'Every (operand, quantifier, bound tuple, greediness, spelling) over the stated domains is executed; results are '
             'compared with (?:X){n,m}, counted on witness repetitions, and rejections compared with an independent decision table.',
             '3 C04', GRAPH_NOTE),
+    'C06': ('exhaustive enumeration of constructor arguments; exact denotation over all 1,114,112 code points; set-order schedules with bounded deviations',
+            'Every constructor call over the stated argument domains is executed under the sorted set order and under every schedule with '
+            '<= 1 (thorough: 2) order deviations; the exact set of matched code points is computed from the normal form of the emitted text '
+            '(cross-validated by brute force over all code points) and compared with the requested set.', '3 C06',
+            'Trusted: re._parser, CPython set semantics apart from iteration order. Unicode-only members of \\d \\s \\w are masked as the property states.'),
+    'C07': ('explicit-state search of the class value graph under | - ~ to depth 2; exact denotations; set-order schedules with bounded deviations',
+            'atoms x atoms (all 28 intervals over a..h, straddling intervals, named and negated classes, tokens and non-classes) under both '
+            'operators and orders, negation and double negation, then every distinct result against a 40-atom core; judged by set arithmetic on '
+            'the operands\' own denotations over all code points.', '3 C07',
+            'Trusted: re._parser. Operand denotations are read from the operands\' own emitted text (constructors are C06).'),
     'C08': ('explicit-state BFS of the grouping sub-graph to depth 4/5; tree model of capture()/group()',
             'All nestings of capture()/capture(name)/group()/group(True)/optional/concat up to the depth bound; the result tree '
             'is predicted from the operand tree by the documented rules.', '3 C08', GRAPH_NOTE),
